@@ -13,6 +13,7 @@ C: build.begin/end/circular hook events of every build are validated against Tra
 """
 from __future__ import annotations
 
+from harness.core import stable
 import copy
 import json
 import os
@@ -94,7 +95,7 @@ def results(schema, xml):
     errs = []
     try:
         for e in schema.iter_errors(xml):
-            errs.append((e.path, str(e.reason)[:160]))
+            errs.append((e.path, stable(e.reason)[:160]))
     except Exception as e:      # noqa: BLE001
         errs.append(("raised", type(e).__name__))
     try:
